@@ -83,6 +83,19 @@ class Dut:
             self.air.fates = []
             nrf.listen = True
             lp.s.advance(300_000)
+        elif op[0] == "cfg":
+            # link-neutral configuration touches between traffic and the accessors: re-assigning the value in effect, reading
+            # attributes; none of them may disturb FIFOs, flags, the IRQ mask or what the accessors report afterwards
+            try:
+                nrf.pa_level = nrf.pa_level
+                nrf.arc = nrf.arc
+                if not self.lite:
+                    nrf.crc = nrf.crc
+                    _ = nrf.data_rate, nrf.address_length, nrf.ack, nrf.dynamic_payloads, nrf.auto_ack
+                    _ = [nrf.get_auto_ack(p) for p in range(6)], [nrf.get_dynamic_payloads(p) for p in range(6)]
+                    _ = nrf.allow_ask_no_ack        # (last: nothing after it refreshes the driver's cached view)
+            except Exception:  # noqa
+                pass
         elif op[0] == "write_only":
             try:
                 nrf.write(bytes([0xDD, self.k]), write_only=True)
@@ -134,7 +147,7 @@ def random_history(args):
     ev, ops = [], []
     for _ in range(40):
         if rng.random() < 0.35:
-            op = rng.choice(TRAFFIC)
+            op = rng.choice(TRAFFIC + [("cfg",), ("cfg",)])
             ev.append(d.traffic(op))
         else:
             op = rng.choice([a for a in ACCESS if not (lite and a[0] == "last_tx_arc")])
